@@ -6,7 +6,8 @@ catalogue (16 kinds x 3 seeded variations), a dry run counts its call-outs, then
 probe battery is run in the same thread.  Run index >= N_CATALOGUE: seeded random histories of 1-8
 catalogue operations with 0-3 faults.
 
-Oracle: the battery's verdict vector after the history == the vector recorded on the clean state of the
+Oracle 2 (insertion invariance): a base history of checks inside context blocks gives the same verdicts with and
+without unrelated activity spliced in.  Oracle 1: the battery's verdict vector after the history == the vector recorded on the clean state of the
 same world just before the history (clean-vs-after-history), incl. the white-box flags: flatten mode,
 '?' label, _skip_instancecheck of every annotation object, identity of importlib's cache_from_source,
 sys.meta_path, config switches."""
@@ -44,7 +45,11 @@ RULE = (
     "install_import_hook + import of a module whose body is a call-out + uninstall; print_bindings with a "
     "failing stdout) x every call-out x {RuntimeError, TypeError, AnnotationError, KeyboardInterrupt, "
     "SystemExit, GeneratorExit, Abort}, exhaustively.  Random mode: histories of 1-8 such operations with "
-    "0-3 faults.  After each history a probe battery (12 probes + one per annotation object) is compared "
+    "0-3 faults; 40% of the random runs are INSERTION runs: a base history of checks inside context blocks is executed "
+    "twice, once as is and once with unrelated activity spliced in (decorations -- new/old/None style, beartype included, "
+    "also INSIDE the live context -- mentioning the same annotation objects, pickling, hook install/import/uninstall, "
+    "calls of other decorated functions, other context blocks that fail or raise) and the verdicts of the base operations "
+    "must be identical.  After each (non-insertion) history a probe battery (12 probes + one per annotation object) is compared "
     "with its clean value.  evaluations = variants executed; distinct_nontrivial = distinct (operation "
     "kind, site, k, exception class) placements whose fault actually fired + distinct fault-free histories."
 )
@@ -210,7 +215,89 @@ def _op_of_kind(kind, r, g, pref, fns):
     raise ValueError(name)
 
 
+def gen_insertion(seed):
+    """Insertion-invariance mode: a base history of checks inside context blocks, and the same history with UNRELATED
+    activity spliced in (decorations that mention the same annotation objects -- also inside the live context --,
+    pickling, hook installation, calls of other decorated functions, other context blocks with their own failing checks).
+    The verdicts of the base operations must not change."""
+    r, g, pref = _mk(seed)
+    fns = {}
+    pool_arr = [g.arr_ann(atype=r.choice(("np", "duck")), min_tokens=1) for _ in range(r.randrange(2, 4))]
+    pool_tree = [g.add_ann({"k": "tree", "leaf": r.choice(["int"] + pool_arr), "struct": r.choice(("T", "T", "S", None))})
+                 for _ in range(r.randrange(1, 3))]
+
+    def check():
+        if r.random() < 0.55:
+            a = r.choice(pool_arr)
+            vt = "np" if g.anns[a]["atype"] == "np" else "duck"
+            return {"op": "arr", "ann": a, "val": g.arr_val(a, pref, p_bad=0.2, vt=vt)}
+        ta = r.choice(pool_tree)
+        leaf = g.anns[ta]["leaf"]
+        skel = g.tree_shape(r.randrange(0, 3), 4, node_ok=False)
+
+        def lv(i):
+            if leaf == "int":
+                return {"t": "int", "v": i}
+            return g.arr_val(leaf, pref, p_bad=0.1, vt="np" if g.anns[leaf]["atype"] == "np" else "duck")
+
+        return {"op": "tree", "ann": ta, "val": g.fill_tree(skel, lv)}
+
+    base = []
+    for bi in range(r.randrange(1, 4)):
+        body = [check() for _ in range(r.randrange(2, 7))]
+        if r.random() < 0.5:
+            body.append({"op": "obs"})
+        base.append({"op": "ctx", "body": body, "exit": "ret"})
+    c = [0]
+
+    def ids(ops):
+        for o in ops:
+            o["_id"] = f"b{c[0]}"
+            c[0] += 1
+            if isinstance(o.get("body"), list):
+                ids(o["body"])
+
+    ids(base)
+
+    def unrelated():
+        x = r.random()
+        if x < 0.45:
+            fid = f"F{len(fns)}"
+            style = r.choice(("new", "new", "old", "none"))
+            params = [[f"x{j}", r.choice(pool_arr + pool_tree)] for j in range(r.randrange(1, 3))]
+            fns[fid] = {"style": style, "tc": r.choice(("tg", "bt", "bt", "min")), "kind": r.choice(("fn", "fn", "method", "dc")) if style == "new" else "fn",
+                        "params": params, "ret": None, "lazy": True}
+            ops = [{"op": "decorate", "fn": fid}]
+            if r.random() < 0.5:
+                args = []
+                for _, aref in params:
+                    sp = g.anns[aref]
+                    if sp["k"] == "tree":
+                        args.append({"t": "tuple", "c": [{"t": "int", "v": 1}]} if sp["leaf"] == "int" else
+                                    {"t": "tuple", "c": [g.arr_val(sp["leaf"], pref, p_bad=0.2, vt="np" if g.anns[sp["leaf"]]["atype"] == "np" else "duck")]})
+                    else:
+                        args.append(g.arr_val(aref, pref, p_bad=0.3, vt="np" if sp["atype"] == "np" else "duck"))
+                ops.append({"op": "call", "fn": fid, "args": args, "kw": 0, "body": [check()], "ret": None, "exit": "ret"})
+            return ops
+        if x < 0.6:
+            return [{"op": "pickle", "ann": r.choice(pool_arr), "how": r.choice(("pickle", "copy", "deepcopy"))}]
+        if x < 0.72:
+            return [{"op": "hook", "module": r.choice(("c12mod_a", "c12mod_b")), "checker": r.choice(("sim.seams.spy_tc", None)), "with": True}]
+        return [{"op": "ctx", "body": [check() for _ in range(r.randrange(1, 4))],
+                 "exit": "ret" if r.random() < 0.6 else ["raise", r.choice(("ValueError", "KeyboardInterrupt"))]}]
+
+    ins = []
+    for _ in range(r.randrange(1, 5)):
+        bi = r.randrange(-1, len(base))
+        pos = r.randrange(0, (len(base[bi]["body"]) if bi >= 0 else len(base)) + 1)
+        ins.append({"block": bi, "pos": pos, "ops": unrelated()})
+    return {"engine": ENGINE, "property": PID, "seed": seed, "anns": g.anns, "fns": fns, "base": base, "insertions": ins,
+            "history": [], "kinds": ["insertion"], "faults": [], "mode": "insertion"}
+
+
 def gen(seed, tier="quick", index=None):
+    if index is not None and index >= N_CATALOGUE and rng(seed, "mode3").random() < 0.4:
+        return gen_insertion(seed)
     r, g, pref = _mk(seed)
     fns = {}
     cat = rng(seed, "mode").random() < 0.5 if index is None else index < N_CATALOGUE
@@ -359,7 +446,93 @@ def execute(scn):
     return ctxsim.in_fresh_thread(_execute, scn)
 
 
+def _splice(scn):
+    import copy
+
+    prog = copy.deepcopy(scn["base"])
+    blocks = list(prog)  # resolve block references BEFORE top-level insertions shift the indices
+    todo = []
+    for k, ins in enumerate(scn["insertions"]):
+        tgt = prog if ins["block"] < 0 else blocks[ins["block"]]["body"]
+        todo.append((tgt, min(ins["pos"], len(tgt)), k, copy.deepcopy(ins["ops"])))
+    for tgt, pos, k, ops in sorted(todo, key=lambda t: (-t[1], -t[2])):
+        tgt[pos:pos] = ops
+    return prog
+
+
+def _run_prog(scn, prog):
+    d = ctxsim.Direct(scn)
+    try:
+        d.reset_faults({})
+        for i, op in enumerate(prog):
+            d.interp.exec_op(op, str(i))
+        seams.take_output()
+        tr = list(d.run.transcript)
+    finally:
+        d.close()
+    return tr
+
+
+def _flat_ids(ops, out):
+    for i, o in enumerate(ops):
+        out.append(o)
+        if isinstance(o.get("body"), list):
+            _flat_ids(o["body"], out)
+    return out
+
+
+def _execute_insertion(scn):
+    stats = Stats()
+    base_ops = [o for o in _flat_ids(scn["base"], []) if o["op"] in ("arr", "tree", "obs")]
+    prog_b = _splice(scn)
+
+    def outcomes(prog, tr):
+        # map transcript paths back to operations; keep the base operations (ids b*) in program order
+        byid = {}
+
+        def walk(ops, prefix):
+            for i, o in enumerate(ops):
+                pth = f"{prefix}.{i}" if prefix else str(i)
+                if str(o.get("_id", "")).startswith("b"):
+                    byid[pth] = o["_id"]
+                if isinstance(o.get("body"), list):
+                    walk(o["body"], pth)
+
+        walk(prog, "")
+        return {byid[p]: out for p, k, out in tr if p in byid and k in ("arr", "tree", "obs")}
+
+    tr_a = _run_prog(scn, scn["base"])
+    _cleanup_process_state()
+    tr_b = _run_prog(scn, prog_b)
+    _cleanup_process_state()
+    oa, ob = outcomes(scn["base"], tr_a), outcomes(prog_b, tr_b)
+    viols = []
+    for o in base_ops:
+        stats.inc("evaluations")
+        if oa.get(o["_id"]) != ob.get(o["_id"]):
+            kinds_ins = sorted({x["op"] + ":" + (scn["fns"][x["fn"]]["style"] + ":" + scn["fns"][x["fn"]]["tc"] if x["op"] == "decorate" else "")
+                                for i in scn["insertions"] for x in i["ops"]})
+            viols.append(violation(PID, "insertion-invariance",
+                                   {"operation": {k: v for k, v in o.items() if k != "body"}, "annotation": scn["anns"].get(o.get("ann")),
+                                    "without_unrelated_activity": oa.get(o["_id"]), "with_unrelated_activity": ob.get(o["_id"]),
+                                    "inserted": scn["insertions"]},
+                                   sig={"oracle": "insertion-invariance", "op": o["op"], "inserted": "+".join(kinds_ins)[:80]}))
+            break
+    stats.inc("runs")
+    stats.inc("mode:insertion")
+    for i in scn["insertions"]:
+        for x in i["ops"]:
+            stats.inc("inserted:" + x["op"])
+        stats.inc("inserted_inside_live_context" if i["block"] >= 0 else "inserted_between_contexts")
+    return {"violations": viols, "stats": stats.c,
+            "features": [digest([[o["op"] for o in base_ops], [[x["op"] for x in i["ops"]] for i in scn["insertions"]], [i["block"] >= 0 for i in scn["insertions"]]])],
+            "digest": digest([tr_a, tr_b]),
+            "sample": {"mode": "insertion", "base_ops": len(base_ops), "insertions": [[i["block"], i["pos"], [x["op"] for x in i["ops"]]] for i in scn["insertions"]]}}
+
+
 def _execute(scn):
+    if scn.get("mode") == "insertion":
+        return _execute_insertion(scn)
     stats = Stats()
     feats = set()
     viols = []
